@@ -45,6 +45,8 @@ func c01Profile() Profile {
 		{Name: "tcp", Keys: []annChoice{{"tcp-service-port", []string{"7000", "7001"}}}, Root: true},
 	}
 	p.BundlePct = 20
+	p.RotateTogether = true
+	p.SparseOK = true
 	p.Avoid = []avoidRule{{Sig: sigDefBackJoins, Pred: gainsDefaultBackend}}
 	return p
 }
@@ -125,6 +127,36 @@ func genC01(t *rapid.T) HistCase {
 	return genHistoryX(t, c01Profile(), genParams(t), c01Kinds, sizeScale(5, 10), sizeScale(4, 5), true)
 }
 
+// Known finding: an ingress with tcp-service-port and a tls block whose own backend declarations
+// are all refused or unusable still adds its TLS to the port when another ingress has already
+// configured that port at the time it is parsed, and is skipped ("backend was not configured")
+// when it is parsed first. A fresh sync parses in creation order, a partial sync parses the
+// changed ingress last, so the port ends up with or without TLS depending on the history.
+// TestSyncTCPServicePort pins that TLS may come from an ingress without backend.
+const sigTCPTLSOrphan = ":tcp-tls-declared-without-backend"
+
+// tcpTLSWithoutBackend lists the tcp ports for which some ingress declares TLS while the fresh
+// sync reported that (one of) its backend declarations on that port was skipped.
+func tcpTLSWithoutBackend(objs []*world.Obj, fresh []ctlsim.StepInfo) []string {
+	var ports []string
+	for _, o := range objs {
+		port := o.Ann["tcp-service-port"]
+		if o.Kind != world.KIngress || port == "" || len(o.TLS) == 0 {
+			continue
+		}
+		name := "on Ingress '" + o.NS + "/" + o.Name + "'"
+		name2 := "of Ingress '" + o.NS + "/" + o.Name + "'"
+		for _, st := range fresh {
+			for _, l := range st.Logs {
+				if strings.Contains(l, "skipping") && (strings.Contains(l, name) || strings.Contains(l, name2)) && !strings.Contains(l, "skipping TLS") {
+					ports = append(ports, port)
+				}
+			}
+		}
+	}
+	return dedup(ports)
+}
+
 // compareWithFresh is the oracle of C01 (also used by C12): NF(long-lived) == NF(fresh).
 func compareWithFresh(s *ctlsim.Sim, sigPrefix string) (*Failure, int) {
 	objs := s.World.List()
@@ -145,6 +177,22 @@ func compareWithFresh(s *ctlsim.Sim, sigPrefix string) (*Failure, int) {
 		return nil, nfA.Incon
 	}
 	kind := strings.SplitN(diff[0], " ", 2)[0]
+	if ports := tcpTLSWithoutBackend(objs, steps); len(ports) > 0 {
+		// known finding: are all the differences about the frontends of those tcp ports?
+		only := true
+		for _, d := range diff {
+			hit := false
+			for _, p := range ports {
+				if strings.Contains(firstLine(d), "_front_tcp_"+p) || strings.Contains(firstLine(d), "crtlist_tcp_"+p) {
+					hit = true
+				}
+			}
+			only = only && hit
+		}
+		if only {
+			return failf(sigPrefix+sigTCPTLSOrphan, "%d difference(s), all on the tcp port(s) %v whose TLS is declared by an ingress that configures no backend there; first:\n%s", len(diff), ports, diff[0]), nfA.Incon
+		}
+	}
 	msg := fmt.Sprintf("%d difference(s) between the incrementally maintained configuration (A) and a fresh controller on the same cluster state (B); first:\n%s", len(diff), diff[0])
 	if len(diff) > 1 {
 		msg += "\n...\n" + diff[len(diff)-1]
